@@ -26,6 +26,14 @@ REQUIRED = ['threshold_proportional/count', 'threshold_proportional/strongest_ke
 CASE_TIMEOUT = {'quick': 30.0, 'thorough': 180.0}
 
 
+
+def _cc_und(rs, n, binary=False, p=.15):
+    A = np.triu((rs.rand(n, n) < p).astype(float), 1)
+    A[np.arange(n - 1), np.arange(1, n)] = 1      # a spanning path keeps it connected
+    W = A if binary else A * (rs.rand(n, n) * .9 + .1)
+    return W + W.T
+
+
 def cases(tier, seed):
     thorough = tier == 'thorough'
     rs = np.random.RandomState(seed + 1717)
@@ -51,6 +59,7 @@ def cases(tier, seed):
     for t in range(120 if thorough else 40):
         out.append({'kind': 'util', 'n': int(rs.randint(2, 14)), 'sym': bool(t % 2), 'dens': float(rs.choice([.2, .5, 1.0])),
                     'wk': ['signed', 'signedint', 'real', 'int'][t % 4], 'diag': bool(t % 3 == 0), 'ms': int(rs.randint(1 << 30))})
+    out.append({'kind': 'concurrent', 'g': ['named', 'path', 2], 'directed': False, 'ws': seed, 'schemes': [], 'n': 220 if tier == 'thorough' else 120})
     return out
 
 
@@ -236,6 +245,10 @@ def run_util(case, bct, REC):
 
 
 def run(case, bct, REC):
+    if case.get('kind') == 'concurrent':
+        from .common import concurrent_callers_agree
+        REC.tag(PROP, 'exec')
+        return concurrent_callers_agree(REC, PROP, bct, [('threshold_proportional', lambda rs, n: (_cc_und(rs, n), .3)), ('threshold_absolute', lambda rs, n: (_cc_und(rs, n), .5)), ('weight_conversion', lambda rs, n: (_cc_und(rs, n), 'lengths'))], case['n'], case['ws'])
     if case['kind'] == 'prop':
         run_prop(case, bct, REC)
     else:
